@@ -44,12 +44,13 @@ def run(tier, seed):
     log("[tlc] FriProtocol: %s behaviours (L=1,2,3); Sound/Complete/Order hold; refuted without the remainder-commitment check" % {L: len(b) for L, b in behaviours.items()})
     accepts = {p["s"]: p["accepts"] for p in r.printed if p.get("kind") == "strategy"}
     accepts["highdeg"] = False
+    accepts["partiallayer"] = False
     sched = [p for p in r.printed if p.get("kind") == "sched" and p["ln"] >= 4 and p["lb"] >= 2 and p["ln"] + p["lb"] <= (10 if tier == "quick" else 13)]
     if tier == "quick":
         sched = sched[::7]
     strategies = [("highdeg", 0), ("far", 0), ("degplus", 1), ("degplus", 3), ("degplus", 10 ** 6), ("corrupt", 8), ("corrupt", 12),
                   ("tamper", 0), ("tamper", 1), ("tamper", 5), ("wrongalpha", 0), ("wrongalpha", 1), ("omit", 0), ("omit", 1),
-                  ("swap", 0), ("adaptive", 0)]
+                  ("swap", 0), ("adaptive", 0), ("partiallayer", 0), ("partiallayer", 1)]
     cases = []
     i = 0
     for s in sched:
@@ -61,6 +62,14 @@ def run(tier, seed):
             cases.append({"id": i, "field": f, "hasher": h, "ext": e, "ln": s["ln"], "lb": s["lb"], "fold": s["fold"], "rem": s["rem"],
                           "q": q, "poly": "random", "strategy": st, "param": param, "dup": False, "seed": seed + i})
             i += 1
+    # the forged last layer on schedules where few rows of the last layer are opened (blowup 2 and 4, small remainders)
+    small = [p for p in r.printed if p.get("kind") == "sched" and p["lb"] in (1, 2) and p["rem"] in (0, 1, 2) and p["layers"] >= 2 and p["ln"] + p["lb"] <= 9]
+    for s in small[::2 if tier == "quick" else 1]:
+        f, h, e = c15.COMBOS[i % len(c15.COMBOS)]
+        d = 2 ** (s["ln"] + s["lb"])
+        cases.append({"id": i, "field": f, "hasher": h, "ext": e, "ln": s["ln"], "lb": s["lb"], "fold": s["fold"], "rem": s["rem"],
+                      "q": min(80, d - 1), "poly": "random", "strategy": "partiallayer", "param": 0, "dup": False, "seed": seed + i})
+        i += 1
     # every terminal behaviour of the protocol machine, on schedules with the matching number of layers
     allsched = [p for p in r.printed if p.get("kind") == "sched" and p["ln"] >= 4 and p["lb"] >= 2 and p["ln"] + p["lb"] <= 11]
     for L, bs in behaviours.items():
@@ -81,7 +90,7 @@ def run(tier, seed):
     n = rej = skipped = 0
     per = {}
     for c, o in zip(cases, obs):
-        if "skip" in o or (o.get("agree_all") and c.get("model_verdict") == "reject") or (
+        if "skip" in o or (o.get("agree_all") and (c.get("model_verdict") == "reject" or c["strategy"] == "partiallayer")) or (
                 c.get("rem_kind") in ("adaptive", "other") and o.get("sent_is_committed")):
             # not applicable to the schedule; the partial remainder happens to agree at every queried position; or the adaptive
             # remainder coincides with the committed one (honest run with as many folded positions as coefficients): that
@@ -93,6 +102,8 @@ def run(tier, seed):
             c["ln"], 2 ** c["lb"], c["fold"], c["rem"], c["q"], c["field"], c["hasher"], c["ext"])
         verdict = o.get("verify", o.get("prover_panic", "?"))
         expect_accept = (c.get("model_verdict") == "accept") if c["strategy"] == "model" else accepts.get(c["strategy"], False)
+        if c["strategy"] == "partiallayer" and c["param"] == 1:
+            expect_accept = True      # the hand-written prover without the forgery, on a low-degree polynomial
         per[c["strategy"]] = per.get(c["strategy"], 0) + 1
         if verdict != "ok" and expect_accept and not verdict.startswith("panic@"):
             v.violation("fri/rejected/honest-behaviour", "the behaviour the protocol model accepts (honest run) is rejected: %s (%s)" % (verdict, ctx), c)
